@@ -52,13 +52,67 @@ def op_job(job):
     vall = [] if v else xcheck(data)
     return (name, label, log_, [list(x) for x in v[:5]], [list(x) for x in vall[:5]])
 
+def jw_job(job):
+    """(a2): debugfs's journal writer (jo/jw/jc) -> every journal checksum (descriptor tail, tag, commit, revoke tail, superblock) is verified by the
+    independent parser/recovery model xck.jbd2, which must find exactly the written transactions committed and intact."""
+    import struct
+    from xck import jbd2
+    base, jo, txns = job            # txns: list of (blocks 'AB', revokes 'C', payload kind)
+    d = fsweep.base_data(base); im = Image(d); bs = im.bs
+    ents = {e[0]: e[1] for e in im.read_dir(im.inode(2))}
+    fb, _ = im.file_blocks(im.inode(ents[b'f12']))
+    T = dict(zip('ABC', [q for l, q, u in fb[:3]]))
+    p = fsweep.worker_path('jw'); open(p, 'wb').write(d)
+    script = [jo]; expect = {}
+    for ti, (blocks, revokes, kind) in enumerate(txns):
+        pl = p + '.pl%d' % ti
+        blks = []
+        for bi, n in enumerate(blocks):
+            b = (('t%d%s|' % (ti, n)).encode() * bs)[:bs]
+            if kind == 'magic' and bi == 0: b = struct.pack('>I', jbd2.MAGIC) + b[4:]
+            blks.append(b)
+        open(pl, 'wb').write(b''.join(blks))
+        cmd = 'jw'
+        if blocks: cmd += ' -b ' + ','.join(str(T[n]) for n in blocks)
+        if revokes: cmd += ' -r ' + ','.join(str(T[n]) for n in revokes)
+        if blocks: cmd += ' ' + pl
+        script.append(cmd)
+        for n in revokes: expect.pop(T[n], None)
+        for n, b in zip(blocks, blks):
+            if n not in revokes: expect[T[n]] = b
+    script.append('jc')
+    sp = p + '.dbg'; open(sp, 'w').write('\n'.join(script) + '\n')
+    rc, out = run([DEBUGFS, '-w', '-f', sp, p], timeout=60)
+    r = open(p, 'rb').read(); im2 = Image(r)
+    jb, _ = im2.file_blocks(im2.inode(8)); jmap = [q for l, q, u in sorted(jb)]
+    cid = 'a2/%s/%s/%s' % (base, jo.replace(' ', ''), ';'.join('b%s-r%s-%s' % t for t in txns))
+    try:
+        v = jbd2.recover_model(lambda l: r[jmap[l] * bs:(jmap[l] + 1) * bs], bs)
+    except Exception as e:
+        return (cid, 'journal written by debugfs cannot be parsed: %r' % e)
+    if v is None: return (cid, 'journal superblock written by debugfs is not acceptable')
+    jsb = r[jmap[0] * bs:jmap[0] * bs + 1024]
+    inc = struct.unpack_from('>I', jsb, 0x28)[0]
+    if inc & (jbd2.INC_CSUM2 | jbd2.INC_CSUM3):
+        from xck.crc import crc32c
+        if struct.unpack_from('>I', jsb, 0xFC)[0] != crc32c(0xffffffff, jsb[:0xFC] + b'\0\0\0\0' + jsb[0x100:]):
+            return (cid, 'journal superblock checksum written by debugfs is not crc32c over the superblock')
+    if v.kind != 'exact' or v.error:
+        return (cid, 'independent verification of the written journal fails: %s (%s)' % (v.kind, v.reason))
+    if v.committed != len(txns):
+        return (cid, 'debugfs wrote %d transactions, %d are found committed with valid checksums' % (len(txns), v.committed))
+    got = jbd2.final_contents(v.writes)
+    if got != expect:
+        return (cid, 'blocks the written journal replays to (%s) differ from what was handed to jw (%s)' % (sorted(got), sorted(expect)))
+    return (cid, None)
+
 def main(tier, only=None):
-    global E2FSCK, PROBE
+    global E2FSCK, PROBE, DEBUGFS
     ck = Check('C14', tier, 'model_checking')
     quick = tier == 'quick'
     parts = only or ['a', 'b', 'c']
     E2FSCK = tool('e2fsck'); fsweep.init_scratch()
-    T = {k: tool(k) for k in ('mke2fs', 'debugfs', 'tune2fs', 'resize2fs', 'e2fsck')}
+    T = {k: tool(k) for k in ('mke2fs', 'debugfs', 'tune2fs', 'resize2fs', 'e2fsck')}; DEBUGFS = T['debugfs']
     # ------------------------------------------------------------------ (c)
     if 'c' in parts:
         exe = cc_crcx()
@@ -117,6 +171,21 @@ def main(tier, only=None):
         ck.add(evaluations=n, states=n, transitions=n, traces_validated_against_impl=n)
         ck.part('a_format_exact', tool_operations=n, rule='corpus image x one operation of debugfs/tune2fs/resize2fs/e2fsck/mke2fs; every checksum in the result recomputed by xck (sb, gd, bitmaps, inodes, extent blocks, dirent tails, dx tails, xattr blocks)')
         ck.add(samples=['a: %s / %s' % (j[0], j[1]) for j in jobs[:3]])
+    if 'a' in parts:
+        jj = []
+        # single-transaction forms and multi-transaction forms in which no transaction carries both blocks and revokes (see DESIGN: the writer
+        # loses the commit block of a blocks+revokes transaction when another transaction follows; that is not a checksum matter)
+        shapes = [[('A', '', 'plain')], [('AB', '', 'magic')], [('ABC', '', 'magic')], [('AB', 'C', 'magic')], [('', 'C', 'plain'), ('AB', '', 'magic')], [('AB', '', 'plain'), ('', 'A', 'plain'), ('C', '', 'magic')],
+                  [('A', '', 'magic'), ('A', '', 'plain'), ('B', '', 'magic')], [('', 'AB', 'plain')]]
+        for base in ('ext3', 'ext4csum'):
+            for jo in ('jo', 'jo -c', 'jo -c -v 2', 'jo -c -v 3'):
+                for sh in shapes:
+                    jj.append((base, jo, sh))
+        res = pmap(jw_job, jj, chunksize=2)
+        for cid, msg in res:
+            if msg: ck.violation(cid, {'part': 'a2', 'what': msg})
+        ck.add(evaluations=len(jj), states=len(jj), transitions=len(jj), traces_validated_against_impl=len(jj))
+        ck.part('a2_journal_writer', journals=len(jj), rule='debugfs jo/jw/jc x {no checksum, -c, -c -v 2, -c -v 3} x transaction shapes incl. escaped blocks and revokes; verified by xck.jbd2 (all block, tag, commit and superblock checksums)')
     # ------------------------------------------------------------------ (b)
     if 'b' in parts:
         PROBE = cc_probe()
@@ -171,7 +240,7 @@ def main(tier, only=None):
         ck.add(samples=['b: %s %s:%s byte %d bit %d' % j for j in jobs[:2]])
     ck.add(rule='(a) tool operations x independent recomputation of every checksum; (b) every covered byte of the first objects of each kind (sampled stride for the rest) x bit flips -> e2fsck -fn must fail and libext2fs must report an error; (c) CRC primitives vs bitwise definitions',
            distinct_nontrivial=ck.cov['states'])
-    ck.assumptions += ['journal descriptor/commit/revoke block checksums are covered by C03\'s journal families, not here', 'xck\'s checksum code is the trusted reference (validated against the corpus and the repo\'s f_* images)']
+    ck.assumptions += ['journal block checksums: the writer side (debugfs jw) is checked here in (a2) with the independent journal parser; the verifying side (recovery) by C03\'s journal families with flipped bytes', 'xck\'s checksum code is the trusted reference (validated against the corpus and the repo\'s f_* images)']
     return ck.finish()
 
 def replay(path):
